@@ -183,6 +183,30 @@ def run(ctx):
                         mterms.append('([' + '; '.join(qlit(float(v)) for v in raw[t]) + f'], {qlit(float(np.asarray(r2)[t]))})'); mmeta.append(dict(W, key=k, t=t))
         except Exception as E:
             viol(f'{kind}: reduce raised {type(E).__name__}: {E}', W)
+    # reduced statistics of INTEGER-typed member series (an integer pop_scale keeps count results int64): compared with NumPy (property) and with
+    # stored_in_integer_series (qmean_of members) in Coq (model of the truncating store)
+    iterms, imeta = [], []
+    try:
+        sd_ = rng.randrange(1, 10**4)
+        msI = ss.MultiSim(ss.Sim(n_agents=300, dur=10, pop_scale=1, rand_seed=sd_, verbose=0, diseases=dict(type='sis', beta=0.1), networks=ss.RandomNet(n_contacts=4)), n_runs=4, debug=True).run()
+        trunc = []
+        for k in ('sis_new_infections', 'sis_n_infected'):
+            raw = np.array([np.asarray(s.results.flatten()[k], dtype=float) for s in msI.sims])
+            isint = all(np.issubdtype(np.asarray(s.results.flatten()[k]).dtype, np.integer) for s in msI.sims)
+            for use_mean in (True, False):
+                msI.reduce(use_mean=use_mean); got = np.asarray(msI.results[k], dtype=float).copy(); msI.reset()
+                want = raw.mean(axis=0) if use_mean else np.median(raw, axis=0)
+                ctx.count(('int-series-reduce', sd_, k, use_mean), nontrivial=True); ctx.dist('reduce of integer-typed series')
+                if not np.allclose(got, want, rtol=1e-12, atol=1e-12):
+                    t = int(np.argmax(np.abs(got - want))); trunc.append((k, 'mean' if use_mean else 'median', t, raw[:, t].tolist(), float(got[t]), float(want[t])))
+                if use_mean and isint:
+                    for t in range(raw.shape[1]):
+                        iterms.append('([' + '; '.join(qlit(float(v)) for v in raw[:, t]) + f'], {qlit(float(got[t]))})'); imeta.append(dict(seed=sd_, key=k, t=t))
+        if trunc:
+            ctx.violation(f'reduce() of members with integer-typed series (pop_scale=1 given as an int) is not the stated statistic (series, statistic, step, members, reduced, stated): {trunc[:3]}',
+                          dict(probe='integer-series-reduce', seed=sd_, cases=trunc[:6], finding_key='integer-pop-scale-truncates-reduced-statistic'))
+    except Exception as E:
+        viol(f'reduce of integer-typed member series raised {type(E).__name__}: {E}', dict(probe='integer-series-reduce'))
     # seeds given explicitly per replicate (iterpars) are in effect exactly as given: replicate i equals the same sim built with that seed
     try:
         kind_ = 'sir_mf'; seeds = [rng.randrange(1, 10**4) for _ in range(3)]
@@ -214,7 +238,9 @@ def run(ctx):
     for j in bad[:3]: ctx.broke('correspondence', 'a reduced mean differs from qmean_of the members', repr(mmeta[j]))
     bad = ctx.coq_mismatches('c18var', IMPORTS, 'list Q * Q', vterms, 'Definition ok (c : list Q * Q) : bool := let \'(l, r) := c in Qclose ((1 # 1000000000) * (1 + r)) (qvar_of l) r.', shard=200)
     for j in bad[:3]: ctx.broke('correspondence', 'the spread of a mean reduction ((high - low) / 4, squared) differs from qvar_of the members', repr(vmeta[j]))
-    ctx.cov['replayed_in_coq'] = dict(member_seeds=len(seedterms), quantiles=len(qterms), means=len(mterms), variances=len(vterms))
+    bad = ctx.coq_mismatches('c18int', IMPORTS, 'list Q * Q', iterms, 'Definition ok (c : list Q * Q) : bool := let \'(l, r) := c in Qeq_bool (stored_in_integer_series (qmean_of l)) r.', shard=200)
+    for j in bad[:3]: ctx.broke('correspondence', 'a mean written into an integer-typed series differs from stored_in_integer_series (qmean_of members)', repr(imeta[j]))
+    ctx.cov['replayed_in_coq'] = dict(member_seeds=len(seedterms), quantiles=len(qterms), means=len(mterms), variances=len(vterms), integer_series_means=len(iterms))
 
 
 def replay(ctx, rp):
